@@ -124,14 +124,14 @@ PubInputs == [n \in 1..(5 * 7 * 7 * 2) |->
 (* A third frame: what an operand is.  doc#nb combines doc#member with an  *)
 (* operand made of SEVERAL edges whose targets reach DIFFERENT user types  *)
 (* (a tuple-to-userset over a tupleset with two parent types, or a direct  *)
-(* list of two usersets): folder#blocked reaches user, org#blocked emp.    *)
+(* list of two usersets): one of folder#blocked / org#blocked reaches user, the other emp.    *)
 (* doc#r combines doc#nb with doc#staff.  A type that only some edge of    *)
 (* the subtracted / intersected operand reaches must not leak into nb,     *)
 (* nor must one get lost; whether r is accepted hangs on exactly that.     *)
 (***************************************************************************)
 OpOf(o, side, A, B) == IF o = "diff" THEN (IF side = 1 THEN Di(A, B) ELSE Di(B, A))
                        ELSE [k |-> o, ch |-> IF side = 1 THEN <<A, B>> ELSE <<B, A>>]
-OpModel(staff, o1, s1, o2, s2, kind) ==
+OpModel(staff, o1, s1, o2, flip, kind) ==
   LET sub == IF kind = 1 THEN TTU("blocked", "parent") ELSE This
       nbrestr == IF kind = 1 THEN <<>> ELSE <<Us("folder", "blocked"), Us("org", "blocked")>>
   IN [types |-> <<
@@ -139,11 +139,12 @@ OpModel(staff, o1, s1, o2, s2, kind) ==
           [name |-> "member", rw |-> This, restr |-> <<Ty("user")>>],
           [name |-> "nb", rw |-> OpOf(o1, s1, CU("member"), sub), restr |-> nbrestr],
           [name |-> "parent", rw |-> This, restr |-> <<Ty("folder"), Ty("org")>>],
-          [name |-> "r", rw |-> OpOf(o2, s2, CU("nb"), CU("staff")), restr |-> <<>>],
+          [name |-> "r", rw |-> OpOf(o2, 1, CU("nb"), CU("staff")), restr |-> <<>>],
           [name |-> "staff", rw |-> This, restr |-> staff]>>],
        [name |-> "emp", rels |-> <<>>],
-       [name |-> "folder", rels |-> <<[name |-> "blocked", rw |-> This, restr |-> <<Ty("user")>>]>>],
-       [name |-> "org", rels |-> <<[name |-> "blocked", rw |-> This, restr |-> <<Ty("emp")>>]>>],
+       \* (flip: which of the two parents - the one listed first or the one listed last - reaches the type member does not)
+       [name |-> "folder", rels |-> <<[name |-> "blocked", rw |-> This, restr |-> <<Ty(IF flip = 1 THEN "user" ELSE "emp")>>]>>],
+       [name |-> "org", rels |-> <<[name |-> "blocked", rw |-> This, restr |-> <<Ty(IF flip = 1 THEN "emp" ELSE "user")>>]>>],
        [name |-> "user", rels |-> <<>>]>>]
 OpKinds == <<"diff", "inter", "union">>
 OpInputs == [n \in 1..(2 * 3 * 2 * 3 * 2 * 2) |->
@@ -151,7 +152,7 @@ OpInputs == [n \in 1..(2 * 3 * 2 * 3 * 2 * 2) |->
        o1 == OpKinds[(((n - 1) \div 2) % 3) + 1]
        s1 == (((n - 1) \div 6) % 2) + 1
        o2 == OpKinds[(((n - 1) \div 12) % 3) + 1]
-       s2 == (((n - 1) \div 36) % 2) + 1
+       flip == (((n - 1) \div 36) % 2) + 1
        kind == (((n - 1) \div 72) % 2) + 1
-   IN [id |-> "op" \o ToString(n), m |-> OpModel(IF st = 0 THEN <<Ty("emp")>> ELSE <<Ty("user"), Ty("emp")>>, o1, s1, o2, s2, kind)]]
+   IN [id |-> "op" \o ToString(n), m |-> OpModel(IF st = 0 THEN <<Ty("emp")>> ELSE <<Ty("user"), Ty("emp")>>, o1, s1, o2, flip, kind)]]
 =============================================================================
